@@ -187,6 +187,18 @@ def run_python(cfg, ops, chdir, per_step=None, end="close", sibling=None):
                 elif end == "with":
                     with w:
                         pass
+                elif end == "withexc":
+                    # the with block is left by an exception of the application: the writer is closed all the same, and a
+                    # failure to finalize must not be lost behind the application's exception
+                    class _AppError(Exception):
+                        pass
+                    try:
+                        with w:
+                            raise _AppError("stop recording")
+                    except _AppError as e:
+                        ctx = e.__context__ or e.__cause__
+                        if ctx is not None:
+                            raise ctx
                 else:
                     w.close()
             except Exception as e:  # reported by the caller: after valid calls only, finalizing must succeed
